@@ -8,6 +8,7 @@ import (
 	"bytes"
 	"fmt"
 	"io"
+	"log"
 	"runtime"
 	"strings"
 	"sync"
@@ -158,6 +159,10 @@ func runPipe(t []string) *Obs {
 			gaps = atoi(kv["gaps"])
 			cfg.TimeoutOnEOFMilliSeconds, cfg.WaitTimeOnEOFMilliseconds = 400, 1
 		}
+		if kv["syslog"] == "1" {
+			// the activity log switched on (its text goes nowhere)
+			cfg.SystemLog = log.New(io.Discard, "", 0)
+		}
 		ac := appcore.New(&cfg, channels)
 		ac.HandleMessagesUntilEOF(start, bufio.NewReader(&chunkReader{data: append([]byte{}, bs...), chunks: chunks, pause: time.Millisecond, eofWithData: kv["eof"] == "with-data", gaps: gaps}))
 		done <- ""
@@ -183,7 +188,17 @@ func runPipe(t []string) *Obs {
 				}
 			}
 		}()
-		wg.Wait()
+		// the consumers end when their channels are closed; a consumer whose channel was never closed
+		// (the list of channels was changed under the caller's feet) must not hold up the run for ever
+		finished := make(chan struct{})
+		go func() { wg.Wait(); close(finished) }()
+		select {
+		case <-finished:
+		case <-time.After(10 * time.Second):
+			if o.panicTxt == "" {
+				o.panicTxt = "a consumer was still waiting on its channel 10 s after every channel in the caller's list had been closed"
+			}
+		}
 		deadline := time.Now().Add(500 * time.Millisecond)
 		for runtime.NumGoroutine() > n0 && time.Now().Before(deadline) {
 			time.Sleep(2 * time.Millisecond)
@@ -277,7 +292,7 @@ func init() {
 	opTable["pipe"] = runPipe
 	props["C09"] = &Prop{
 		Rule: "op pipe <T> <stream> chunks= caps= delays= procs=: the real file_handler.Handle + handler.HandleMessages + appcore.HandleMessagesUntilEOF on mixed streams (frames, corrupted frames, junk, " +
-			"stray 0xD3, truncated tails) read through chunked readers (chunk sizes 1..4096, pauses, last bytes with or without the end-of-file error, one or two transient end-of-file results between chunks, a bursty source with one after every chunk - hundreds in one call), 1..4 consumers with capacities 0/1/2/64, latencies 0..2 ms and one consumer that stalls for 7 s (thorough 33 s) on its first message, nil entries, GOMAXPROCS 1/2/4/16; " +
+			"stray 0xD3, truncated tails) read through chunked readers (chunk sizes 1..4096, pauses, last bytes with or without the end-of-file error, one or two transient end-of-file results between chunks, a bursty source with one after every chunk - hundreds in one call), 1..4 consumers with capacities 0/1/2/64, latencies 0..2 ms and one consumer that stalls for 7 s (thorough 33 s) on its first message, nil entries, GOMAXPROCS 1/2/4/16, the activity log on or off; " +
 			"every non-nil consumer's (type, raw) sequence is compared with sequential framing of the same bytes by the real code and with the model's segmentation; goroutines are counted before/after; " +
 			"non-trivial = at least one non-nil consumer and a non-empty stream; distinct = distinct op line",
 		Gen: func(c *Ctx, emit func(class, op string)) {
@@ -330,6 +345,17 @@ func init() {
 			for i := 0; i < c.N(1, 3); i++ {
 				bs := pipeStream(c)
 				emit("consumer-stalls-for-seconds", fmt.Sprintf("pipe %s %s chunks=64 caps=0,1 delays=-%d,0 procs=4 eof=bare", defaultStart, hx(bs), c.N(7000, 33000)))
+			}
+			// the activity log switched on, streams with long runs of other data and long damaged frames
+			for i := 0; i < c.N(12, 120); i++ {
+				bs := pipeStream(c)
+				bs = append(bs, junkRun(r, 61+r.Intn(200))...)
+				bs = append(bs, randFrame(r, 1+r.Intn(40))...)
+				g := randFrame(r, 80+r.Intn(200))
+				g[10] ^= 0x20
+				bs = append(bs, g...)
+				bs = append(bs, pipeStream(c)...)
+				emit("activity-log-on", fmt.Sprintf("pipe %s %s chunks=%d caps=0,2 delays=0,1 procs=4 eof=bare syslog=1", defaultStart, hx(bs), []int{1, 7, 64, 4096}[r.Intn(4)]))
 			}
 			emit("empty", fmt.Sprintf("pipe %s - chunks=1 caps=0,nil delays=0 procs=2", defaultStart))
 		},
